@@ -141,7 +141,8 @@ func ReadRunSummary(sessionAssets flows.SessionAssets, data json.RawMessage, mis
 	}
 
 	// read the contact
-	if e.Contact != nil {
+	// the summary of a run in a session without a contact is marshalled with a null contact
+	if e.Contact != nil && string(e.Contact) != "null" {
 		if run.contact, err = flows.ReadContact(sessionAssets, e.Contact, missing); err != nil {
 			return nil, err
 		}
